@@ -20,7 +20,9 @@ CLAIMED = {
              "window preserves every circuit; IonQNativeTranspiler, whenever it returns, yields the input up to one RZ "
              "per qubit (virtual-Z frame invariant) and hence the same computational-basis statistics, and rejects "
              "gates it has no branch for. The generic-theta branch of U1qNormalizeWithRZTranspiler is a recorded "
-             "finding, refuted as a theorem (it implements U1q(-theta, phi)). All data are re-extracted from the source "
+             "finding, refuted as a theorem (it implements U1q(-theta, phi)); QiskitTranspiler (outside the anchored files) is a "
+             "recorded finding too: from optimization level 2 on, the final layout of Qiskit's transpiled circuit is ignored. "
+             "All data are re-extracted from the source "
              "on every run and validated against the real decompose()/__call__; a numpy-oracle sweep over every "
              "transpiler class/preset/pipeline stage/configuration searches for failing inputs and covers the "
              "passes whose bodies are numeric (KAK, eig).",
@@ -58,7 +60,8 @@ CLAIMED = {
              "as theorems about the regenerated table in an optional file (regenerated_u2/u3_row_is_not_an_inverse); "
              "once repaired in /repo they are covered by inverse_circuit_undoes again without an alarm. The "
              "folding model is tied to scaling_circuit_folding by vm_compute correspondence; a numpy sweep covers "
-             "PauliRotation, UnitaryMatrix, the residual-count arithmetic and noiseless ZNE.",
+             "PauliRotation, UnitaryMatrix, the residual-count arithmetic and noiseless ZNE with every extrapolation method "
+             "(a defect found there - the sign of the exponential term in the log fit - was repaired, fix: bd235b5).",
         design_ref="DESIGN.md section 4 (C12)",
         note="Trusted: Coq kernel+vm_compute; Reals axioms + funext; translate/inverse.py; documented matrices. "
              "Partial: UnitaryMatrix (PauliRotation has pauli_rotation_inverse_undoes), float arithmetic of the residual gate "
